@@ -10,7 +10,7 @@ from model import norm, canon_value
 from apiops import vlit, vdump
 
 CONT, SKIPC, SKIPS, END = 0, -1, -2, -3
-ALTS = [SKIPC, SKIPS, END, 10, 2]
+ALTS = [SKIPC, SKIPS, END, 10, 2, 1]      # 1 = CIF_FINISHED: a positive code like any other
 
 
 # ---------- shapes ----------
